@@ -27,6 +27,17 @@ check(
     "TLA+ spec + TLC exhaustive model checking; spec-to-code replay of TLC behaviours; TLC trace validation of recorded executions",
 )
 
+check(
+    "C15",
+    "TLC enumerates every subset of a 9/13-branch universe x every version (BranchMatch.tla) and checks that the transcription of "
+    "versions.best_match equals the documented precedence plus corollaries (never another major, never a later minor, master only if "
+    "newer/unknown, error iff nothing qualifies); every TLC state is replayed on the real best_match, sampled states become real git "
+    "repositories (remote, local branches, v-tags) run through RallyRepository.update; all recorded results are validated by TLC.",
+    "Bounds: majors 5..9, minors 0..4, patches {0,2}, 3 suffixes; wider numbers only by seeded random cases. git is trusted. "
+    "A master branch is assumed to exist.",
+    "TLA+ transcription + TLC exhaustive enumeration; every state replayed on the implementation; TLC validation of recorded results",
+)
+
 NOT_YET = "check under construction in this round (specification planned in DESIGN.md §4); not claimed yet"
 
 
